@@ -17,7 +17,9 @@ import random
 from typing import Any
 
 from sim import wire as W
+from sim import crypto as C
 from sim.gateway import SimGateway
+from sim.secure_gateway import SecureGateway
 from sim.world import Run
 
 ID = "C25"
@@ -33,20 +35,20 @@ REAL = ["xknx.io.tunnel.UDPTunnel/TCPTunnel", "xknx.core.ConnectionManager", "xk
 STUB = ["gateway (SimGateway)", "network (SimNet)", "loop clock/selector (SimLoop)"]
 ASSUMPTIONS = ["non-threaded interface only (ConnectionConfig.threaded=False)",
                "CPython 3.12 BaseEventLoop scheduling semantics",
-               "secure tunnels and routing are covered by their own worlds (C29/C27/C30 modules) for lifecycle clauses"]
+               "routing connections are covered by their own worlds (C27/C30 modules) for lifecycle clauses"]
 GA = W.ga(3, 1, 1)
 
 
 def gen(seed: int, tier: str) -> dict[str, Any]:
     rng = random.Random(seed)
-    transport = rng.choice(["udp", "udp", "tcp"])
+    transport = rng.choice(["udp", "udp", "tcp", "secure"])
     mode = "bare" if rng.random() < 0.8 else "xknx"
     long_run = rng.random() < 0.25
     horizon = rng.choice([150.0, 400.0]) if long_run else rng.choice([3.0, 8.0, 20.0])
     ops: list[dict[str, Any]] = []
     nfail = rng.choice([0, 1, 1, 2, 3, 5])
     kinds = ["srv_disconnect", "srv_disconnect_foreign", "gw_crash", "send", "send", "cross"]
-    if transport == "tcp":
+    if transport in ("tcp", "secure"):
         kinds += ["tcp_reset", "tcp_close"]
     for _ in range(nfail):
         k = rng.choice(kinds)
@@ -74,7 +76,8 @@ def gen(seed: int, tier: str) -> dict[str, Any]:
     gwscript: dict[str, Any] = {}
     if rng.random() < 0.3:
         gwscript["connect"] = [None] + [rng.choice([None, {"k": "drop"}, {"k": "error", "status": 0x24},
-                                                     {"k": "ok", "lat": 1.2}, {"k": "dup", "d": 0.3}])
+                                                     {"k": "ok", "lat": 1.2}, {"k": "dup", "d": 0.3},
+                                                     {"k": "ok+disconnect", "d": rng.choice([0.0, 0.0, 0.001])}])
                                         for _ in range(rng.randint(1, 5))]
     if long_run and rng.random() < 0.7:
         gwscript["connstate"] = [rng.choice([None, {"k": "drop"}, {"k": "error", "status": 0x21}])
@@ -99,8 +102,8 @@ def run(plan: dict[str, Any]) -> dict[str, Any]:
     from xknx.cemi import CEMIFrame
     from xknx.core import XknxConnectionState
     from xknx.exceptions import CommunicationError
-    from xknx.io import ConnectionConfig, ConnectionType
-    from xknx.io.tunnel import TCPTunnel, UDPTunnel
+    from xknx.io import ConnectionConfig, ConnectionType, SecureConfig
+    from xknx.io.tunnel import SecureTunnel, TCPTunnel, UDPTunnel
 
     cfg = plan["config"]
     R = Run(plan, max_time=20000.0)
@@ -114,7 +117,11 @@ def run(plan: dict[str, Any]) -> dict[str, Any]:
         if cemi and cemi[0] == W.L_DATA_REQ:
             gw.send_request(ch.cid, bytes((W.L_DATA_CON,)) + cemi[1:])
 
-    gw = SimGateway(net, script=dict(plan.get("gw") or {}), bus=bus)
+    secure = cfg["transport"] == "secure"
+    if secure:
+        gw = SecureGateway(net, random.Random(plan["seed"] ^ 0xC25), script=dict(plan.get("gw") or {}), bus=bus)
+    else:
+        gw = SimGateway(net, script=dict(plan.get("gw") or {}), bus=bus)
     traces: list[list[str]] = [[], []]
 
     def mk_cb(i, xknx):
@@ -135,15 +142,24 @@ def run(plan: dict[str, Any]) -> dict[str, Any]:
                                    gateway_port=gw.port, local_ip=net.local_ip, local_port=cfg["local_port"],
                                    route_back=cfg["route_back"], auto_reconnect=cfg["auto_reconnect"],
                                    auto_reconnect_wait=cfg["auto_reconnect_wait"])
+            elif secure:
+                tunnel = SecureTunnel(xknx, cemi_received_callback=lambda raw: None, gateway_ip=gw.ip,
+                                      gateway_port=gw.port, auto_reconnect=cfg["auto_reconnect"],
+                                      auto_reconnect_wait=cfg["auto_reconnect_wait"], user_id=2, user_password="user",
+                                      device_authentication_password="dev")
             else:
                 tunnel = TCPTunnel(xknx, cemi_received_callback=lambda raw: None, gateway_ip=gw.ip,
                                    gateway_port=gw.port, auto_reconnect=cfg["auto_reconnect"],
                                    auto_reconnect_wait=cfg["auto_reconnect_wait"])
         else:
-            cc = ConnectionConfig(connection_type=ConnectionType.TUNNELING if udp else ConnectionType.TUNNELING_TCP,
+            ctype = ConnectionType.TUNNELING if udp else (
+                ConnectionType.TUNNELING_TCP_SECURE if secure else ConnectionType.TUNNELING_TCP)
+            cc = ConnectionConfig(connection_type=ctype,
                                   gateway_ip=gw.ip, gateway_port=gw.port, local_ip=net.local_ip,
                                   local_port=cfg["local_port"], route_back=cfg["route_back"],
-                                  auto_reconnect=cfg["auto_reconnect"], auto_reconnect_wait=cfg["auto_reconnect_wait"])
+                                  auto_reconnect=cfg["auto_reconnect"], auto_reconnect_wait=cfg["auto_reconnect_wait"],
+                                  secure_config=SecureConfig(user_id=2, user_password="user",
+                                                             device_authentication_password="dev") if secure else None)
             xknx = XKNX(connection_config=cc)
             tunnel = None
         info["xknx"] = xknx
@@ -211,7 +227,7 @@ def run(plan: dict[str, Any]) -> dict[str, Any]:
                 if udp:
                     gw.sock.sendto(fr, ch.ctrl, lat=op["lat"], nofault=True)
                 else:
-                    ch.via[1].send_to_client(fr, lat=op["lat"])
+                    gw._reply(ch.via, fr, lat=op["lat"])      # wrapped for a secure session
                 del gw.channels[cid]
                 R.extra_faults["cross_disconnect"] += 1
                 when = loop.time() + op["lat"] + op["off"]
@@ -280,6 +296,24 @@ def run(plan: dict[str, Any]) -> dict[str, Any]:
                 pass
 
     R.execute(main())
+    if secure:
+        # the lifecycle clauses are judged on the frames inside the session: unwrap both directions with the keys the
+        # gateway negotiated (independent crypto); session-level frames stay as they are
+        plain_events = []
+        for (n, t, it, kind, actor, detail) in R.events:
+            if kind in ("tcp_out", "tcp_in"):
+                s_ = gw.sessions.get(int(actor)) if str(actor).isdigit() else None
+                out = b""
+                for (svc, body) in W.split_all(bytes.fromhex(detail)):
+                    fr = W.frame(svc, body)
+                    if svc == W.SECURE_WRAPPER and s_ is not None and s_.key is not None:
+                        u = C.unwrap(s_.key, fr)
+                        if u is not None:
+                            fr = u["plain"]
+                    out += fr
+                detail = out.hex()
+            plain_events.append((n, t, it, kind, actor, detail))
+        R.events[:] = plain_events
     abstract = oracle(R, plan, info, traces, udp)
     R.extra_faults.update(gw.fired)
     fired = sum(R.faults.fired.values()) + sum(R.extra_faults.values())
